@@ -2,13 +2,72 @@ package govc
 
 import (
 	"fmt"
+	"go/token"
 	"go/types"
+	"strings"
 
 	"golang.org/x/tools/go/ssa"
 )
 
 // loopVarValue finds the current value of a named local at the loop header.
 func (fr *frame) loopVarValue(li *loopInfo, name string, st *State, phiVal func(*ssa.Phi) Value) (Value, bool) {
+	return fr.loopVarValueT(li, name, "", st, phiVal)
+}
+
+// typeMatches reports whether the Go variable obj can be the loop variable declared with type text decl
+// (as written in the contract, with package names as qualifiers). Unknown / empty declarations match.
+func (fr *frame) typeMatches(obj types.Object, decl string) bool {
+	if decl == "" || obj == nil {
+		return true
+	}
+	q := func(p *types.Package) string {
+		if fr.fn.Pkg != nil && p == fr.fn.Pkg.Pkg {
+			return ""
+		}
+		return p.Name()
+	}
+	norm := func(x string) string { return strings.ReplaceAll(strings.ReplaceAll(x, " ", ""), "interface{}", "any") }
+	return norm(types.TypeString(obj.Type(), q)) == norm(decl)
+}
+
+func (fr *frame) loopVarValueT(li *loopInfo, name, decl string, st *State, phiVal func(*ssa.Phi) Value) (Value, bool) {
+	// several variables of the function may share the name: prefer those whose type is the declared one
+	anyTyped := false
+	if decl != "" {
+		for _, b := range fr.fn.Blocks {
+			for _, ins := range b.Instrs {
+				if dr, ok := ins.(*ssa.DebugRef); ok {
+					if obj := dr.Object(); obj != nil && obj.Name() == name && fr.typeMatches(obj, decl) {
+						anyTyped = true
+					}
+				}
+			}
+		}
+	}
+	okObj := func(obj types.Object) bool {
+		if obj == nil || obj.Name() != name {
+			return false
+		}
+		return !anyTyped || fr.typeMatches(obj, decl)
+	}
+	// the index variable of a range loop: its value is (hidden counter)+1, computed in the header
+	for b := range li.body {
+		for _, ins := range b.Instrs {
+			dr, ok := ins.(*ssa.DebugRef)
+			if !ok || dr.IsAddr || !okObj(dr.Object()) {
+				continue
+			}
+			if bo, ok := dr.X.(*ssa.BinOp); ok && bo.Block() == li.header && bo.Op == token.ADD {
+				if phi, ok := bo.X.(*ssa.Phi); ok && phi.Block() == li.header && phi.Comment == "rangeindex" {
+					if k, ok := bo.Y.(*ssa.Const); ok && k.Value != nil && k.Int64() == 1 {
+						if pv, ok := phiVal(phi).(*Term); ok {
+							return fr.c.f.Add(pv, fr.c.f.Int(1)), true
+						}
+					}
+				}
+			}
+		}
+	}
 	// phi at the header named like the variable
 	for _, ins := range li.header.Instrs {
 		phi, ok := ins.(*ssa.Phi)
@@ -23,7 +82,7 @@ func (fr *frame) loopVarValue(li *loopInfo, name string, st *State, phiVal func(
 	for _, b := range fr.fn.Blocks {
 		for _, ins := range b.Instrs {
 			if dr, ok := ins.(*ssa.DebugRef); ok && dr.IsAddr {
-				if obj := dr.Object(); obj != nil && obj.Name() == name {
+				if obj := dr.Object(); okObj(obj) {
 					if al, ok := dr.X.(*ssa.Alloc); ok {
 						switch a := fr.operand(al, st).(type) {
 						case *LV:
@@ -47,7 +106,7 @@ func (fr *frame) loopVarValue(li *loopInfo, name string, st *State, phiVal func(
 		}
 		for _, ins := range b.Instrs {
 			if dr, ok := ins.(*ssa.DebugRef); ok {
-				if obj := dr.Object(); obj != nil && obj.Name() == name {
+				if obj := dr.Object(); okObj(obj) {
 					if b == li.header {
 						continue
 					}
@@ -87,7 +146,7 @@ func (fr *frame) loopArgs(li *loopInfo, st *State, phiVal func(*ssa.Phi) Value) 
 		return args, true
 	}
 	for _, v := range li.spec.Vars {
-		val, ok := fr.loopVarValue(li, v.Name, st, phiVal)
+		val, ok := fr.loopVarValueT(li, v.Name, v.Type, st, phiVal)
 		if !ok {
 			fr.c.unsupported("loop %d of %s: cannot find variable %q", li.ordinal, fr.fn.Name(), v.Name)
 			return nil, false
